@@ -139,20 +139,29 @@ def handle : Handler := fun op args impl =>
     some ⟨g ++ " " ++ z ++ " " ++ z ++ " " ++ mu ++ " " ++ z ++ " " ++ z, verdictOf (impl == e) "uniques-naive"⟩
   | "uniquesprof", [alpha, rows, prows] => do
     -- the three outputs (unique / new / both) of the two counters with a count profile built from a second
-    -- alignment: naive recounts (`Gv.Spec.Stats`); they serve as model and as predicate
+    -- alignment.  Model: the Go loops (`numGapsUniqueProf`, `numMutationsUniqueProf` on the modelled profile);
+    -- predicate: the naive recounts of `Gv.Spec.Stats` on the implementation's answer
     let alpha ← alpha.toNat?
     let rows ← decRows rows
     let prows ← decRows prows
     let L := (lenOf rows).toNat
     let Lp := (lenOf prows).toNat
     if (rows ++ prows).any (fun r => r.2.any fun c => c ≥ 130) then some ⟨"unmodelled", "na"⟩ else
-    if !Spec.profileFits prows Lp L then some ⟨"err", verdictOf (impl == "err") "profile-length-must-be-checked"⟩ else
+    let enc3 (t : List Nat × List Nat × List Nat) : String := plus t.1 ++ " " ++ plus t.2.1 ++ " " ++ plus t.2.2
+    let m := match countProfile prows (lenOf prows) with
+      | none => "panic"
+      | some prof =>
+        match numGapsUniqueProf rows (lenOf rows) prof, numMutationsUniqueProf rows (lenOf rows) alpha prof with
+        | some g, some (some mu) => enc3 g ++ " " ++ enc3 mu
+        | _, none => "panic"
+        | _, _ => "err"
+    if !Spec.profileFits prows Lp L then some ⟨m, verdictOf (impl == "err") "profile-length-must-be-checked"⟩ else
     let idx := List.range rows.length
     let g := idx.map (Spec.gapsWithProfileOf rows prows L)
     let mu := idx.map (Spec.mutationsWithProfileOf (Spec.wildcardOf alpha) rows prows L)
     let e := plus (g.map (·.1)) ++ " " ++ plus (g.map (·.2.1)) ++ " " ++ plus (g.map (·.2.2)) ++ " " ++
       plus (mu.map (·.1)) ++ " " ++ plus (mu.map (·.2.1)) ++ " " ++ plus (mu.map (·.2.2))
-    some ⟨e, verdictOf (impl == e) "uniques-with-profile-naive"⟩
+    some ⟨m, verdictOf (impl == e) "uniques-with-profile-naive"⟩
   | "pssm", [alpha, rows, lg, pseudo, norm, _] => do
     -- model: `Gv.Model.pssm` at `Float`, compared with the implementation's bit patterns by class and relative
     -- tolerance (the implementation's text is echoed when they agree); repeated calls must agree; predicate: without
